@@ -5,7 +5,8 @@ Line protocol for C15 (sender authorisation).
 
 ```
 C15 run <checkHeader> <unauthAct> <noMatchAct> <errAct> <conn> <user> <mailFrom>
-   | P <kind> <err>      prepare_email table: kind I(dentity) T(single) S(static, multi) M(multi); err=1: every lookup fails
+   | P <kind> <err>      prepare_email table: kind I(dentity) T(single) S(static, multi) M(multi),
+                         L (table.email_localpart) O (table.email_localpart_optional); err=1: every lookup fails
    | p <key> <val>*      one entry of it
    | U <kind> <err> , | u <key> <val>*     the same for user_to_email
    | fn <in> <ok> <out>  from_normalize(in)      (real function result)
@@ -52,7 +53,8 @@ def action? : String → Option FailAction
   | "b" => some ⟨true, true⟩
   | _ => none
 
-def kindOk (k : String) : Bool := k == "I" || k == "T" || k == "S" || k == "M"
+def kindOk (k : String) : Bool :=
+  k == "I" || k == "T" || k == "S" || k == "M" || k == "L" || k == "O"
 
 def parseGroup (s : Spec) (g : List String) : Option Spec :=
   match g with
@@ -105,6 +107,13 @@ def TabSpec.table (t : TabSpec) : Table :=
       | some (v :: _) => .ok (some v)
       | some [] => .ok (some [])
       | none => .ok none)
+  else if t.kind == "L" || t.kind == "O" then
+    -- table.EmailLocalpart.Lookup: the mailbox of `address.Split(key)`; a key that does not
+    -- split has no mapping (`email_localpart`) or maps to itself (`email_localpart_optional`)
+    .single (fun k => if t.err then .error () else
+      match split k with
+      | .ok (mbox, _) => .ok (some mbox)
+      | .error _ => if t.kind == "O" then .ok (some k) else .ok none)
   else
     .multi (fun k => if t.err then .error () else .ok ((find t.rows k).getD []))
 
